@@ -45,9 +45,10 @@ def _expand_branch(mol_graph, current, anchor, recipe):
     for bdx, (n_mon, attributes, order) in enumerate(recipe):
         if bdx == 0:
             anchor = current
-        for _ in range(0, n_mon):
+        for idx in range(0, n_mon):
             mol_graph.add_node(current, **attributes)
-            mol_graph.add_edge(prev_node, current, order=order)
+            # only the first copy is reached by the recorded bond order
+            mol_graph.add_edge(prev_node, current, order=order if idx == 0 else 1)
 
             prev_node = current
             current += 1
